@@ -440,3 +440,24 @@ Proof.
   - assert ((bhash b <=? bhash a) = false) as -> by lia. reflexivity.
   - destruct (bhash a =? bhash b) eqn:E; (assert ((bhash b <=? bhash a) = true) as -> by lia); reflexivity.
 Qed.
+
+(* the insert notification of a momentum that confirmed nothing of this account — also the notification the chain sends
+   for a momentum the versioned store did not apply (own momentum inserted after a competing one at the same height):
+   the rebuild succeeds and account, confirmed part and pool are what they were *)
+Lemma unapplied_momentum_identity a : wf a ->
+  step a (OMomentum 0) = (a, ROk).
+Proof.
+  intros Hwf. pose proof Hwf as [_ Hs].
+  assert (Hk : (sh a + 0 <= length (rchain a))%nat) by lia.
+  destruct (rebuild_exact a 0 Hwf Hk) as [H _]. rewrite H.
+  destruct a as [rc s]. cbn [rchain sh]. rewrite Nat.add_0_r. reflexivity.
+Qed.
+
+(* whatever a momentum the store did not apply lists as its content: after any number of such notifications between two
+   operations the history behaves as without them *)
+Lemma unapplied_momentums_no_trace a n ops : wf a ->
+  run a (repeat (OMomentum 0) n ++ ops) = run a ops.
+Proof.
+  intros Hwf. induction n as [|n IH]; [reflexivity|].
+  cbn [repeat app run]. rewrite (unapplied_momentum_identity a Hwf). cbn [fst]. exact IH.
+Qed.
